@@ -108,11 +108,20 @@ class Gen:
             c = rng.choice(built)
             kws.setdefault('input', []).append(c['var'])
             self.tag('ct-input-ct')
-        elif r < 0.8:
+        elif r < 0.7:
             c = rng.choice(built)
-            kws.setdefault('depends', []).append(c['var'])
+            if len(c['outs']) > 1 and rng.random() < 0.5:
+                kws.setdefault('depends', []).append(c['var'] + '[0]')
+                self.tag('ct-depends-index')
+            else:
+                kws.setdefault('depends', []).append(c['var'])
             args += ["'--from'", f"{c['var']}.full_path()"]
             self.tag('ct-depends')
+        elif r < 0.8:
+            # the other target itself as a command argument (expands to its path and makes it a dependency)
+            c = rng.choice(built)
+            args += ["'--from'", c['var'] + '[0]']
+            self.tag('ct-command-arg-target')
         else:
             fn = self.static_src(d, f'dep data {self.n}\n', 'dep', '.txt')
             kws.setdefault('depend_files', []).append(f'files({q(fn)})')
@@ -150,7 +159,13 @@ class Gen:
             h = rng.choice(self.hdrs)
             incs = ["'--inc'", q(h['file'])]
             needs = [h['dir']] + h['needs']
-            if h['ct']:
+            loose = None
+            if h['ct'] and mode == 'src' and rng.random() < 0.5:
+                # nothing orders the two generators (the script does not open the header); whoever compiles the generated
+                # source must list the header's target as well
+                loose = h
+                self.tag('generated-source-includes-foreign-generated-header')
+            elif h['ct']:
                 kws.setdefault('depends', []).append(h['ct'])
             self.tag('nested-generated-include')
         if mode == 'hdr':
@@ -180,7 +195,7 @@ class Gen:
             if incs:
                 use = ["'--use'", q(h['macro'])]
             cmd = ['tool', "'src'", "'@OUTPUT@'", q(fn)] + incs + use + froms + extra
-            ct['srcs'] = [{'file': cf, 'func': fn, 'var': var, 'needs': needs}]
+            ct['srcs'] = [{'file': cf, 'func': fn, 'var': var, 'needs': needs, 'requires': loose if incs else None}]
         elif mode == 'cat':
             tf = f'd{k}.txt'
             ct['outs'] = [tf]
@@ -262,10 +277,31 @@ class Gen:
         incdirs: T.List[str] = []
         own_funcs: T.List[str] = []          # functions defined by generated sources of this target
         ext_funcs: T.List[str] = []          # functions of linked libraries
+        # libraries first: a function must not be defined twice in one link
+        libs = []
+        if kind != 'tool' or rng.random() < 0.3:
+            libs = rng.sample(self.libs, min(len(self.libs), rng.choice([0, 1, 1, 2])))
+        deps = rng.sample(self.deps, min(len(self.deps), rng.choice([0, 0, 1])))
+        taken: T.Set[str] = set()
+        keep = []
+        for lb in libs:
+            if not (lb['contains'] & taken):
+                keep.append(lb)
+                taken |= lb['contains']
+        libs = keep
+        keep = []
+        for dp in deps:
+            if not (dp['contains'] & taken) or any(dp['lib'] == lb['var'] for lb in libs):
+                keep.append(dp)
+                taken |= dp['contains']
+        deps = keep
         # generated sources from custom targets
         for c in rng.sample(self.cts, min(len(self.cts), rng.choice([0, 1, 1, 2]))):
             if not (c['hdrs'] or c['srcs']):
                 continue
+            if any(s['func'] in taken for s in c['srcs']):
+                continue
+            taken |= {s['func'] for s in c['srcs']}
             whole = rng.random() < 0.6 or len(c['outs']) == 1
             if whole:
                 positional.append(c['var'])
@@ -273,6 +309,9 @@ class Gen:
                 own_funcs += [s['func'] for s in c['srcs']]
                 for s in c['srcs']:
                     incdirs += s.get('needs', [])
+                    if s.get('requires'):
+                        positional.append(s['requires']['var'])
+                        usable.append(s['requires'])
             else:
                 # only the header of a pair, by index
                 positional.append(c['hdrs'][0]['var'])
@@ -294,7 +333,6 @@ class Gen:
         if cfgs and rng.random() < 0.5:
             usable.append(rng.choice(cfgs))
         # dependencies
-        deps = rng.sample(self.deps, min(len(self.deps), rng.choice([0, 0, 1])))
         dep_hdrs: T.List[dict] = []
         for dp in deps:
             dep_hdrs += dp['hdrs']
@@ -303,9 +341,6 @@ class Gen:
         if deps:
             kws.append('dependencies: [' + ', '.join(dp['var'] for dp in deps) + ']')
         # libraries
-        libs = []
-        if kind != 'tool' or rng.random() < 0.3:
-            libs = rng.sample(self.libs, min(len(self.libs), rng.choice([0, 1, 1, 2])))
         lw, lwh = [], []
         for lb in libs:
             if lb['static'] and rng.random() < 0.3:
@@ -320,11 +355,13 @@ class Gen:
         if lwh:
             kws.append('link_whole: [' + ', '.join(lwh) + ']')
         objs_from = None
-        stat = [lb for lb in self.libs if lb['static'] and lb['var'] not in lw + lwh and lb['self_contained']]
+        stat = [lb for lb in self.libs if lb['static'] and lb['var'] not in lw + lwh and lb['self_contained']
+                and not (lb['contains'] & taken)]
         if kind == 'executable' and stat and rng.random() < 0.2:
             objs_from = rng.choice(stat)
             kws.append(f"objects: {objs_from['var']}.extract_all_objects(recursive: false)")
             ext_funcs += objs_from['own_funcs']
+            taken |= objs_from['contains']
             self.tag('extract_objects')
         ext_funcs = sorted(set(ext_funcs))
         for h in usable:
@@ -358,6 +395,7 @@ class Gen:
         mfunc = {'executable': 'executable', 'tool': 'executable'}.get(kind, kind)
         if kind in ('executable',) and rng.random() < 0.15:
             kws.append('build_by_default: false')
+        positional = list(dict.fromkeys(positional))
         args = ', '.join([q(name)] + [q(s) for s in srcs] + positional + kws)
         self.emit(d, f'{var} = {mfunc}({args})')
         self.tag(kind)
@@ -374,7 +412,9 @@ class Gen:
             for lb in libs:
                 if lb['var'] in lwh:
                     exported += lb['funcs']
+            contains = set(funcs + own_funcs) | taken
             self.libs.append({'var': var, 'static': static, 'funcs': sorted(set(exported)), 'own_funcs': funcs + own_funcs,
+                              'contains': contains,
                               'self_contained': not ext_funcs, 'var_for_input': var if kind != 'both_libraries' else None})
             if rng.random() < 0.5:
                 # a dependency object: the library plus (maybe) generated headers for its users
@@ -389,7 +429,7 @@ class Gen:
                     srcs_kw += ', include_directories: [' + ', '.join(sorted(set(self.inc_of(x) for x in dincs))) + ']'
                     self.tag('declare_dependency-sources')
                 self.emit(d, f'dp{dk} = declare_dependency(link_with: {var}{srcs_kw})')
-                self.deps.append({'var': f'dp{dk}', 'hdrs': hs, 'funcs': sorted(set(exported))})
+                self.deps.append({'var': f'dp{dk}', 'hdrs': hs, 'funcs': sorted(set(exported)), 'contains': contains, 'lib': var})
 
 
 def gen_project(rng, max_items: int = 10) -> dict:
